@@ -438,6 +438,29 @@ let prng_case toks =
       let s = Buffer.contents b in s ^ " # " ^ s
   | _ -> "badcase"
 
+(* ------------------------------------------------------------------ C18: interleavings of the repaired generator *)
+(* line: sched <T> | <len,len;len,...> | <t t t ...> *)
+let conc_line (line : string) =
+  match String.split_on_char '|' line with
+  | [ h; progs; sched ] ->
+      let tn = (match List.filter (fun s -> s <> "") (String.split_on_char ' ' (String.trim h)) with [ _; t ] -> int_of_string t | _ -> 0) in
+      let plist = List.map (fun one -> List.map (fun l -> nat_of_int (int_of_string l)) (List.filter (fun s -> s <> "") (String.split_on_char ',' (String.trim one)))) (String.split_on_char ';' progs) in
+      let prog (t : M.nat) = (try List.nth plist (int_of_nat t) with _ -> []) in
+      let sch = List.map (fun s -> nat_of_int (int_of_string s)) (List.filter (fun s -> s <> "") (String.split_on_char ' ' (String.trim sched))) in
+      let s = M.run sch (M.init0 prog) in
+      let b = Buffer.create 128 in
+      let incomplete = ref false in
+      for t = 0 to tn - 1 do
+        let th = M.thr s (nat_of_int t) in
+        if th.M.todo <> [] then incomplete := true;
+        Buffer.add_string b (Printf.sprintf "t%d:" t);
+        List.iter (fun (n, l) -> Buffer.add_string b (Printf.sprintf " %d/%d" (int_of_nat n) (int_of_nat l))) (List.rev th.M.outs);
+        Buffer.add_string b " "
+      done;
+      Buffer.add_string b (Printf.sprintf "| seedings=%d order=%s" (int_of_nat (M.seeds s)) (String.concat "" (List.map (fun (t, _) -> string_of_int (int_of_nat t) ^ ",") (M.log s))));
+      let r = (if !incomplete then "INCOMPLETE " else "") ^ Buffer.contents b in r ^ " # " ^ r
+  | _ -> "badcase"
+
 let dispatch : (string * (string list -> string)) list ref = ref [ ("ops", ops_case); ("ntt", ntt_case); ("expr", expr_case); ("crt", crt_case); ("set", set_case); ("serial", serial_case); ("rb", rb_case); ("prng", prng_case) ]
 
 let () =
@@ -449,7 +472,7 @@ let () =
        let line = input_line stdin in
        let toks = List.filter (fun s -> s <> "") (String.split_on_char ' ' (String.trim line)) in
        if toks <> [] then begin
-         Buffer.add_string buf (try (if family = "polyp" then polyp_case_line line else f toks) with e -> "exn:" ^ Printexc.to_string e);
+         Buffer.add_string buf (try (if family = "polyp" then polyp_case_line line else if family = "conc" then conc_line line else f toks) with e -> "exn:" ^ Printexc.to_string e);
          Buffer.add_char buf '\n'
        end
      done
